@@ -158,10 +158,11 @@ const (
 	c09AnsEmpty        // NOERROR, no answer (cached with the 120 s floor)
 	c09AnsCname        // CNAME to a tagged target + tagged address RR
 	c09AnsTTL2         // one tagged RR, TTL 2: expires long before the janitor's next pass
+	c09AnsCnameAddr1st // like c09AnsCname, address record first: the first record's owner is not the asked name
 	c09AnsKinds
 )
 
-var c09AnsKindNames = []string{"addr", "ttl0", "nx", "empty", "cname", "ttl2"}
+var c09AnsKindNames = []string{"addr", "ttl0", "nx", "empty", "cname", "ttl2", "cname-addr-first"}
 
 func c09TaggedRR(owner string, qname string, qtype uint16, ttl uint32) dnsmessage.RR {
 	tag := c09Tag(qname, qtype)
@@ -255,7 +256,7 @@ func c09BuildAnswer(q dnsmessage.Question, id uint16, kind int) *dnsmessage.Msg 
 	case c09AnsNX:
 		m.Rcode = dnsmessage.RcodeNameError
 	case c09AnsEmpty:
-	case c09AnsCname:
+	case c09AnsCname, c09AnsCnameAddr1st:
 		if q.Qtype == dnsmessage.TypeTXT {
 			m.Answer = []dnsmessage.RR{c09TaggedRR(q.Name, q.Name, q.Qtype, 60)}
 			break
@@ -264,6 +265,9 @@ func c09BuildAnswer(q dnsmessage.Question, id uint16, kind int) *dnsmessage.Msg 
 		m.Answer = []dnsmessage.RR{
 			&dnsmessage.CNAME{Hdr: dnsmessage.RR_Header{Name: q.Name, Rrtype: dnsmessage.TypeCNAME, Class: dnsmessage.ClassINET, Ttl: 60}, Target: target},
 			c09TaggedRR(target, q.Name, q.Qtype, 60),
+		}
+		if kind == c09AnsCnameAddr1st {
+			m.Answer[0], m.Answer[1] = m.Answer[1], m.Answer[0]
 		}
 	}
 	return m
